@@ -16,9 +16,9 @@ this reading is adopted here.
 import itertools
 
 NAME = "nurikabe"
-STATUS = "differential only"
+STATUS = "model+differential"
 THEOREMS = []
-LEAN_CMD = None
+LEAN_CMD = "puz_nurikabe"
 
 _SHAPES = [(1, 1), (1, 2), (1, 3), (1, 4), (1, 5), (2, 1), (3, 1), (4, 1), (5, 1), (2, 2), (2, 3), (3, 2), (2, 4), (4, 2),
            (3, 3), (2, 5), (5, 2), (3, 4), (4, 3), (2, 6), (6, 2)]
@@ -148,3 +148,12 @@ def classify(problem, description):
     if "raised" in description:
         return "raises"
     return "line-board" if min(h, w) == 1 else "mismatch"
+
+
+def _table(t):
+    return "(" + " ".join("(" + " ".join(str(v) for v in row) + ")" for row in t) + ")"
+
+
+def lean_line(problem):
+    low = problem.get("unknown_low")
+    return "(puz_nurikabe %d %d %s %s)" % (problem["height"], problem["width"], _table(problem["problem"]), "N" if low is None else low)
